@@ -14,7 +14,7 @@ def findings():
 
 
 def seeded():
-    rows = ["| seeded change | property | needs, in order to manifest | quick check | concrete failing input |", "|---|---|---|---|---|"]
+    rows = ["| seeded change | property | needs, in order to manifest | first run (the slice had never seen the seed) | quick check now | concrete failing input |", "|---|---|---|---|---|---|"]
     for f in sorted(glob.glob(os.path.join(VERIF, "seeded", "*", "meta.json"))):
         m = json.load(open(f))
         r = m.get("check_results", {}).get("quick")
@@ -24,7 +24,9 @@ def seeded():
             res += " (thorough: caught)"
         if m.get("also_caught_by"):
             res += "; caught by " + m["also_caught_by"].split(" (")[0]
-        rows.append("| `%s` | %s | %s | %s | %s |" % (m["id"], m["property"], m["needs_to_manifest"].replace("|", "\\|"), res, conc))
+        b = m.get("blind_result")
+        first = "-" if b is None else ("caught" if b["caught"] else "MISSED")
+        rows.append("| `%s` | %s | %s | %s | %s | %s |" % (m["id"], m["property"], m["needs_to_manifest"].replace("|", "\\|")[:300], first, res, conc))
     return "\n".join(rows)
 
 
